@@ -223,9 +223,10 @@ def _tensor_product_MProcess_MProcess(elem1: MProcess, elem2: MProcess) -> MProc
     c_sys = CompositeSystem(e_sys_list)
 
     # calc list of HS(g1 \otimes g2)
+    # the reported shape elem1.shape + elem2.shape is addressed row-major: elem1's outcome is the major index
     hss = []
-    for hs2 in elem2.hss:
-        for hs1 in elem1.hss:
+    for hs1 in elem1.hss:
+        for hs2 in elem2.hss:
             hs = _tensor_product_hs_hs(hs1, hs2, e_sys_list)
             hss.append(hs)
     shape = elem1.shape + elem2.shape
